@@ -7,6 +7,7 @@ import (
 	"context"
 	"encoding/json"
 	"sync"
+	"sync/atomic"
 	"time"
 
 	"fmt"
@@ -738,11 +739,86 @@ func c05HTTPFailure(res *Result) {
 	}
 }
 
+// slowClose delays Close, as a network connection that flushes on close does; the window between
+// the start and the end of a stop is then wide enough for other operations to fall into it.
+type slowClose struct {
+	*vend
+	d time.Duration
+}
+
+func (c slowClose) Close() error { time.Sleep(c.d); return c.vend.Close() }
+
+// c05StopRace: operations issued WHILE the client is being stopped (Close by the user, or the
+// reader failing on peer EOF). Whatever the overlap, an operation that reports success must have
+// transmitted its message, and one that did not transmit must report an error.
+func c05StopRace(res *Result) {
+	for round := 0; round < pick(40, 400); round++ {
+		peer, cch := newVPair()
+		go func() { // the peer reads everything and never answers
+			for {
+				if _, err := peer.Recv(); err != nil {
+					return
+				}
+			}
+		}()
+		cli := jrpc2.NewClient(slowClose{cch, time.Duration(200+100*(round%4)) * time.Microsecond}, nil)
+		var okNotes atomic.Int32
+		var wg sync.WaitGroup
+		stop := make(chan struct{})
+		for g := 0; g < 4; g++ {
+			wg.Add(1)
+			go func() {
+				defer wg.Done()
+				for {
+					select {
+					case <-stop:
+						return
+					default:
+					}
+					var err error
+					if g%2 == 0 {
+						err = cli.Notify(context.Background(), "n", nil)
+					} else {
+						_, err = cli.Batch(context.Background(), []jrpc2.Spec{{Method: "n", Notify: true}})
+					}
+					if err == nil {
+						okNotes.Add(1)
+					} else {
+						return // stopped: every later operation fails too
+					}
+				}
+			}()
+		}
+		time.Sleep(time.Duration(50+50*(round%5)) * time.Microsecond)
+		how := "Close"
+		if round%2 == 1 {
+			how = "peer EOF"
+			peer.Close()
+			time.Sleep(time.Millisecond)
+		}
+		cli.Close()
+		close(stop)
+		wg.Wait()
+		peer.Close()
+		sent, ok := cch.st.sends.Load(), okNotes.Load()
+		in := fmt.Sprintf("4 goroutines issuing Notify / notification-only Batch while the client is stopped by %s (the channel's Close takes a few hundred microseconds)", how)
+		res.Case(fmt.Sprintf("stop-race/%d", round), true, in)
+		res.Count("stop-race")
+		res.Traces++
+		if ok > sent {
+			res.Violatef("an operation on a stopping client reported success without transmitting", in, "%d operations returned nil, %d messages were handed to the channel", ok, sent)
+			return
+		}
+		res.Agreements++
+	}
+}
+
 func TestC05(t *testing.T) {
 	res := newResult("C05", "scenarios: as C04 plus, at random positions, context cancellation of individual operations, Close, peer EOF, Recv errors (EOF / other), Send errors, undecodable inbound records; OnCancel / OnStop / OnCallback hooks installed; under many schedules. distinct = distinct event-log shape; non-trivial = at least two requests outstanding")
 	defer res.Write(t)
 	runCliProperty(t, res, "C05", true)
 	c05HTTPFailure(res)
+	c05StopRace(res)
 }
 
 // c05Hooks: OnStop exactly once after a stop (never without), Close returns after callbacks.
